@@ -28,6 +28,8 @@ def _iroot(n: int, k: int):
         return None
     if n in (0, 1):
         return n
+    if k > 64:
+        return None  # (only reached for float-noise exponents such as 0.333...; never exact)
     lo, hi = 0, 1 << ((n.bit_length() + k - 1) // k + 1)
     while lo < hi:
         mid = (lo + hi) // 2
